@@ -39,6 +39,9 @@ CHECKS = {
  "C20": ("property-based testing (round trip through the header encoding + own protobuf reader of the embedded google.rpc.Status) and coverage-guided fuzzing of the decode side",
          "All ten standard detail kinds as ErrorDetails sets and ordered Vec<ErrorDetail> lists with Unicode strings, repeated violations, boundary durations and metadata are attached, sent through add_header/from_header_map and recovered field by field; the embedded Status is decoded by the harness's own wire reader; mutated/garbage/foreign encodings must never panic and set/vec/getter views must agree.",
          "On a list with a repeated kind check_error_details may keep any one item; unknown type URLs and out-of-range durations only need to be total.", "4/C20"),
+ "C03": ("property-based testing with an independent decoder as oracle (differential against harness-written framing / decompression / header rules), including raw h2 peers that share no code with tonic",
+         "Every body tonic's EncodeBody produces (both roles, all encodings, source errors, encode failures; polled past the end) and every request/response tonic puts on an in-memory HTTP/2 connection (raw h2 server facing generated clients, raw h2 client facing generated servers) is parsed by the harness's own frame parser, magic-checked and independently decompressed, and checked against the header and trailers rules of the gRPC HTTP/2 protocol document.",
+         "flate2 / zstd are trusted as independent decompressors (different API path than tonic's); h2 crate trusted as the HTTP/2 peer.", "4/C03"),
 }
 NOT_YET = {}
 def main():
